@@ -431,6 +431,14 @@ func (rs *runState) describeValue(b []byte) string {
 				if berr != nil {
 					be = "bodyerr"
 				}
+				// the length the cache records for a body without framing of its own is part of the serialisation
+				// (like the meta line), not a field of the stored response: checked and removed, as ParseResponse does
+				if v := resp.Header.Get("X-Httpcache-Stored-Body-Length"); v != "" && resp.ContentLength < 0 && len(resp.TransferEncoding) == 0 {
+					if n, err := strconv.Atoi(v); err != nil || n != len(body) {
+						be = "bodyerr"
+					}
+					resp.Header.Del("X-Httpcache-Stored-Body-Length")
+				}
 				rs.noteDates(resp.Header)
 				return "ent\t" + hx(meta[0]) + "\t" + tns(meta[1]) + "\t" + tns(meta[2]) + "\t" +
 					strconv.Itoa(resp.StatusCode) + "\t" + encHeader(resp.Header) + "\t" + hx(bodyRepr(string(body))) + "\t" + be
